@@ -259,6 +259,10 @@ theorem readCommitted_eq_wfc {l : CLog} (wf : WFC l.segs) (holdest : l.oldest â‰
     intro a ha; have := hsorth.1 a ha; omega
   have hpos : hwPos l.segs l.hw = .ok (preh.length, rp.length + 1) := by
     unfold hwPos; rw [hfindhw]; simp only [getElem?_split hsplith, hentryhw]
+    have hget : hseg.recs[rp.length]? = some r := by
+      rw [hrecsh]; simp
+    have hng : Â¬ (r.offset > l.hw) := by omega
+    simp [hget, hng]
   have hrecsh' : hseg.recs = (rp ++ [r]) ++ rq := by simp [hrecsh]
   have htakeh : âˆ€ a âˆˆ hseg.recs.take (rp.length + 1), a.offset â‰¤ l.hw := by
     rw [hrecsh', List.take_left' (by simp)]
